@@ -631,8 +631,9 @@ func validateTraceBatch(c *Ctx, module, cfg string, traces [][]MapEvent, ids []s
 			alive[i] = false
 		}
 	}
-	fatalf("too many rejected traces (more than 40)")
-	return nil
+	// many rejected traces: the ones found are reported; the remaining traces stay unvalidated
+	c.Extra["validation_stopped_after_rejections"] = len(rejected)
+	return rejected
 }
 
 func checkC10(c *Ctx) {
